@@ -332,8 +332,8 @@ impl<'a> hb_font_t<'a> {
 
         glyph_extents.x_bearing = i32::from(bbox.x_min);
         glyph_extents.y_bearing = i32::from(bbox.y_max);
-        glyph_extents.width = i32::from(bbox.width());
-        glyph_extents.height = i32::from(bbox.y_min - bbox.y_max);
+        glyph_extents.width = i32::from(bbox.x_max) - i32::from(bbox.x_min);
+        glyph_extents.height = i32::from(bbox.y_min) - i32::from(bbox.y_max);
 
         return true;
     }
